@@ -49,6 +49,21 @@ inline std::string handle_violation(World* w, const Plan& plan, const Outcome& f
     ",\"shrink_executions\":" + std::to_string(sr.executions) + ",\"crashed\":" + (crashed ? "true" : "false") + "}";
 }
 
+// simple glob ('*' only) used for the known-findings list handed over by the orchestrator
+inline bool glob_match(const std::string& pat, const std::string& str) {
+  size_t p = 0, s = 0, star = std::string::npos, mark = 0;
+  while (s < str.size()) {
+    if (p < pat.size() && pat[p] == '*') { star = p++; mark = s; }
+    else if (p < pat.size() && pat[p] == str[s]) { p++; s++; }
+    else if (star != std::string::npos) { p = star + 1; s = ++mark; }
+    else return false;
+  }
+  while (p < pat.size() && pat[p] == '*') p++;
+  return p == pat.size();
+}
+inline std::vector<std::string>& known_patterns() { static std::vector<std::string> k; return k; }
+inline bool is_known(const std::string& fp) { for (const std::string& k : known_patterns()) if (glob_match(k, fp)) return true; return false; }
+
 inline std::string stats_json(const Stats& st) {
   return std::string("{\"runs\":") + std::to_string(st.runs) + ",\"steps\":" + std::to_string(st.steps) + ",\"nontrivial\":" + std::to_string(st.nontrivial) +
     ",\"checks\":" + std::to_string(st.checks) + ",\"faults\":" + jmap(st.faults) + ",\"probes\":" + jmap(st.probes) + "}";
@@ -58,7 +73,7 @@ inline std::string stats_json(const Stats& st) {
 inline void child_loop(World* w, u64 verif_seed, u64 cur, u64 end, u64 stride, int tier, const std::string& outdir, int fd, u64 offset,
     double deadline_s, int samples_wanted, int max_violations) {
   FILE* out = fdopen(fd, "w");
-  Stats total; int samples = 0, violations = 0;
+  Stats total; int samples = 0, violations = 0; std::set<std::string> known_seen;
   std::string hpath = outdir + "/hashes." + std::string(w->name()) + "." + std::to_string(offset) + ".bin";
   FILE* hf = fopen(hpath.c_str(), "ab");
   auto t0 = std::chrono::steady_clock::now();   // wall clock is only a budget cap, never an input to a run
@@ -76,10 +91,13 @@ inline void child_loop(World* w, u64 verif_seed, u64 cur, u64 end, u64 stride, i
       samples++;
       fprintf(out, "P %s\n", jstr(p.to_text()).c_str());
     }
-    if (o.violation) {
+    if (o.violation && is_known(o.fingerprint) && known_seen.count(o.fingerprint)) {
+      total.probes["known_finding_recurrences"]++;     // already minimised and reported once in this worker
+    } else if (o.violation) {
+      const bool known = is_known(o.fingerprint); if (known) known_seen.insert(o.fingerprint);
       std::string line = handle_violation(w, p, o, false, verif_seed, i, outdir);
       fprintf(out, "V %s\n", line.c_str()); fflush(out);
-      if (++violations >= max_violations) { fprintf(out, "D %llu\n", static_cast<unsigned long long>(i)); i += stride;
+      if (!known && ++violations >= max_violations) { fprintf(out, "D %llu\n", static_cast<unsigned long long>(i)); i += stride;
         fprintf(out, "E %s\n", stats_json(total).c_str()); fprintf(out, "X %llu\n", static_cast<unsigned long long>(i)); fflush(out); if (hf) fclose(hf); _exit(0); }
     }
     fprintf(out, "D %llu\n", static_cast<unsigned long long>(i));
@@ -102,6 +120,7 @@ inline int cmd_run(const Args& a) {
   const std::string outdir = a.get("out", ".");
   double deadline = static_cast<double>(a.num("max-seconds", 0));
   const int max_viol = static_cast<int>(a.num("max-violations", 3));
+  if (!a.get("known-file").empty()) { std::istringstream ks(read_file(a.get("known-file"))); std::string ln; while (std::getline(ks, ln)) if (!ln.empty()) known_patterns().push_back(ln); }
   u64 cur = from + offset, end = from + count;
   int crashes = 0, violations = 0;
   auto t0 = std::chrono::steady_clock::now();
@@ -143,7 +162,7 @@ inline int cmd_run(const Args& a) {
       printf("{\"type\":\"nondeterminism\",\"world\":%s,\"run\":%llu,\"first\":\"child died\",\"second\":\"no violation when re-run\"}\n", jstr(w->name()).c_str(), (unsigned long long)idx);
     } else {
       std::string l = handle_violation(w, p, o, o.crashed, verif_seed, idx, outdir);
-      printf("%s\n", l.c_str()); violations++;
+      printf("%s\n", l.c_str()); if (!is_known(o.fingerprint)) violations++;
     }
     fflush(stdout);
     if (violations >= max_viol) break;
